@@ -195,6 +195,7 @@ type ClientOpts struct {
 	Pass              string
 	Flood             bool
 	PingFreq          time.Duration
+	Timeout           time.Duration // 0: library default
 	Track             bool
 	CtxDialer         bool
 	Server            string
@@ -211,6 +212,9 @@ func NewClient(o ClientOpts) *client.Conn {
 	cfg.Pass = o.Pass
 	cfg.Flood = o.Flood
 	cfg.PingFreq = o.PingFreq
+	if o.Timeout != 0 {
+		cfg.Timeout = o.Timeout
+	}
 	cfg.Server = o.Server
 	if cfg.Server == "" {
 		cfg.Server = "irc.sim"
